@@ -70,9 +70,8 @@ def handleC02 (j : Json) : Except String Verdict := do
                 | _ => pure none
               | "denseref" => do
                 -- iterRangeShapeRef(s, e, step): getPayloadRef(c) for every visited coordinate
-                let s0 ← fInt opJ "s"; let e0 ← fInt opJ "e"; let stp ← fNat opJ "step"
-                let n := ((e0 - s0).toNat + stp - 1) / stp
-                let cs := (List.range n).map (fun i => s0 + Int.ofNat (i * stp))
+                let s0 ← fInt opJ "s"; let e0 ← fInt opJ "e"; let stp ← fInt opJ "step"
+                let cs := pyRange s0 e0 stp
                 let refs := cs.foldl (fun (st : T (d + 1) × RankLists Int) c => refStepR dflt (d + 1) st.1 st.2 (at_ ++ [c]))
                   (tb, ranksPaths Rb)
                 -- the tree also carries the values written through the references (C01's model of the step)
